@@ -74,7 +74,7 @@ func (r *Rediaron) GetNodes(ctx context.Context, nodenames []string) ([]*types.N
 func (r *Rediaron) GetNodesByPod(ctx context.Context, nodeFilter *types.NodeFilter, opts ...store.Option) ([]*types.Node, error) {
 	op := store.NewOp(opts...)
 	do := func(podname string) ([]*types.Node, error) {
-		key := fmt.Sprintf(nodePodKey, podname, "*")
+		key := fmt.Sprintf(nodePodKey, escapeGlob(podname), "*")
 		kvs, err := r.getByKeyPattern(ctx, key, 0)
 		if err != nil {
 			return nil, err
